@@ -1,1 +1,2 @@
 import ArimProofs.C01
+import ArimProofs.C13
